@@ -99,7 +99,7 @@ func e2ePqState(dir string) string {
 }
 
 func e2eWorkerMain() {
-	syncDone := installSyncWatch() // no-op unless VERIF_WAIT_SYNC is set (c07_crash.go)
+	syncDone := installSyncWatch()    // no-op unless VERIF_WAIT_SYNC is set (c07_crash.go)
 	sfLogCap := sfInstallLogCapture() // no-op unless VERIF_LOG_ERRORS is set (c18_segfault.go)
 	dir := bootEngine()
 	if !engineKeep {
